@@ -42,9 +42,11 @@ def gen_case(seed, k):
         style = rng.choice(["tuple", "named"])
         n = rng.randint(1, 5)
         fields = []
+        # the same names in another order in every variant: position and name of a field are independent
+        names = rng.sample(NAMES, n) if rng.random() < 0.7 else NAMES[:n]
         for i in range(n):
             kk = rng.choice(["T", "T", "U8", "OptT", "T"])
-            fields.append(S.Field(NAMES[i] if style == "named" else None, KINDS[kk], i))
+            fields.append(S.Field(names[i] if style == "named" else None, KINDS[kk], i))
         d = rng.randrange(n)
         dm = d if rng.random() < 0.5 else rng.randrange(n)
         # designated fields: value or reference typed, always targeting T
@@ -253,9 +255,10 @@ def rich_case(seed, k):
             if dm != d or not fields[d]["mutable"]:
                 ft, depth, m = rng.choice(cands)
                 fields[dm] = {"ty": ft, "depth": depth, "mutable": m, "cls": True}
+        rnames = rng.sample(["f0", "f1", "f2", "f3", "f4"], n) if rng.random() < 0.7 else ["f%d" % i for i in range(n)]
         for i, f in enumerate(fields):
             f["i"] = i
-            f["name"] = "f%d" % i if named else None
+            f["name"] = rnames[i] if named else None
             if f["cls"]:
                 f["val"] = None
         sole = n == 1 and rng.random() < 0.5
@@ -275,7 +278,7 @@ def rich_case(seed, k):
     def fdecl(v, f, vis):
         marks = []
         if not v["sole"]:
-            if f["i"] == v["d"]:
+            if f["i"] == v["d"] and "Deref" in traits:
                 marks.append("Deref")
             if mut and f["i"] == v["dm"]:
                 marks.append("DerefMut")
@@ -286,6 +289,10 @@ def rich_case(seed, k):
         return "%s%s%s%s" % (a, vis, (f["name"] + ": ") if f["name"] else "", f["ty"])
     traits = ["Deref"] + (["DerefMut"] if mut else [])
     rng.shuffle(traits)
+    # DerefMut alone next to a hand-written Deref impl is legal: the generated impl names its target through the trait
+    manual_deref = mut and rng.random() < 0.2
+    if manual_deref:
+        traits = ["DerefMut"]
     head = "#[derive(::educe::Educe, Debug)]\n#[educe(%s)]\n" % ", ".join(traits)
     if kind == "struct":
         v = variants[0]
@@ -340,6 +347,13 @@ def rich_case(seed, k):
             arms.append("        %s => { let t: &%s = &%sg; %saddr_size(t) }" % (pat(v, v[key]), target, "*" * (f["depth"] + 1), RT))
         gl.append("#[allow(unreachable_patterns, unused_variables)]\npub fn want_%s(x: &Ty%s) -> (usize, usize) {\n    match x {\n%s\n"
                   "        _ => (0, 0),\n    }\n}\n" % (tr, inst, "\n".join(arms)))
+    if manual_deref:
+        arms = []
+        for v in variants:
+            f = v["fields"][v["d"]]
+            arms.append("            %s => { let t: &%s = &%sg; t }" % (pat(v, v["d"]), target, "*" * (f["depth"] + 1)))
+        gl.append("impl%s ::core::ops::Deref for Ty%s {\n    type Target = %s;\n    #[allow(unreachable_patterns)]\n    fn deref(&self) -> &%s {\n"
+                  "        match self {\n%s\n        }\n    }\n}\n" % (decl, decl, target, target, "\n".join(arms)))
     for vi, v in enumerate(variants):
         drive.append("""        {
             let x = mk%d();
